@@ -239,12 +239,20 @@ def obligations(prop_id, timeout=900):
 
 # ---------------------------------------------------------------- evaluating cases
 def _run_coqc(path, timeout):
+    """One coqc run under a shell time limit. A run that is killed by the limit or by the kernel (busy or memory-starved
+    machine) is repeated once with three times the limit; a second failure is returned with an explicit message."""
     t0 = time.time()
-    r = subprocess.run(["bash", "-c", f"ulimit -s unlimited 2>/dev/null; exec timeout {timeout} coqc "
-                        + " ".join(QFLAGS) + f" {path}"],
-                       stdout=subprocess.PIPE, stderr=subprocess.STDOUT, text=True,
-                       cwd=os.path.dirname(path))
-    return r.returncode, r.stdout, time.time() - t0
+    rc, out = None, ""
+    for attempt, limit in enumerate((timeout, 3 * timeout)):
+        r = subprocess.run(["bash", "-c", f"ulimit -s unlimited 2>/dev/null; exec timeout {limit} coqc "
+                            + " ".join(QFLAGS) + f" {path}"],
+                           stdout=subprocess.PIPE, stderr=subprocess.STDOUT, text=True,
+                           cwd=os.path.dirname(path))
+        rc, out = r.returncode, r.stdout
+        if rc not in (124, 137, -9):
+            break
+        out = f"coqc was killed (exit {rc}) after {int(time.time() - t0)} s (limit {limit} s, attempt {attempt + 1})\n" + out
+    return rc, out, time.time() - t0
 
 
 def eval_shards(name, header, shards, timeout=900, jobs=16):
